@@ -162,7 +162,7 @@ PROPS.update({
     },
     "C19": {
         "level": "proof",
-        "level_text": "the order laws follow from facts established per component: selection returns order statistics whatever the pivots and whatever permutation of the lane is stored (Verus, C02 cone: the contract speaks about the multiset only); the index pair is monotone in q, adjacent, equal exactly when the fraction is 0, 0 at q=0 and N-1 at q=1 (Kani, q symbolic, len enumerated: bounded); kernels: Lower/Higher exact, Midpoint within [lower, higher] and equal to both when they coincide (Kani complete). The API-level laws (monotone in q, min/max at 0/1, Lower <= others <= Higher, coincidence at integral positions, permutation invariance, commuting with increasing relabellings) are additionally enumerated without an oracle",
+        "level_text": "the order laws follow from facts established per component: selection returns order statistics whatever the pivots and whatever permutation of the lane is stored (Verus, C02 cone: the contract speaks about the multiset only; that the multiset determines the order statistic, hence the quantile, is proved: lemma_order_statistic_unique / lemma_quantile_determined); the index pair is monotone in q, adjacent, equal exactly when the fraction is 0, 0 at q=0 and N-1 at q=1 (Kani, q symbolic, len enumerated: bounded); kernels: Lower/Higher exact, Midpoint within [lower, higher] and equal to both when they coincide (Kani complete). The API-level laws (monotone in q, min/max at 0/1, Lower <= others <= Higher, coincidence at integral positions, permutation invariance, commuting with increasing relabellings) are additionally enumerated without an oracle",
         "level_note": "ALSO PROVED (unit qglue): the public entry points quantiles_axis_mut, quantile_axis_mut (one value per lane through index_axis_move), quantile_mut and quantiles_mut (1-D) are verified as callers of the inner function quantiles_axis_mut of src/quantile/mod.rs, which itself is verified from its extracted body for arrays of every dimensionality, every axis, every list of quantiles and every strategy (strategy kernels and the float index functions enter as abstract contracts; the per-lane bulk selection with the contract proved in unit sort; the Zip over pairs of lanes and the iter_mut().zip() loop are lowered mechanically, R11c/R11d): InvalidQuantile with the first offending q before EmptyInput for a zero-length axis; result shape = data shape with the axis replaced by the number of quantiles; entry t of lane j = strategy interpolation of the order statistics floor/ceil(q_t (n-1)) of that lane; every lane is left a permutation of itself. counted as proof: sort-unit Verus queries + complete kernels; bounded: index harnesses, enum:qlaws (lanes <= 4/5 over i32, i8, N64; all permutations for N <= 4), enum:quantiles. Float Linear 'up to one ulp': not decided",
         "technique": "Verus selection contracts + Kani kernel/index harnesses; oracle-free bounded law enumeration",
         "design_ref": "DESIGN.md 4 (C19)",
@@ -176,7 +176,7 @@ PROPS.update({
     },
     "C18": {
         "level": "proof",
-        "level_text": "bulk selection equals single selection: Verus proves that every entry of get_many_from_sorted_mut and the result of get_from_sorted_mut satisfy the same specification selected_at(array, i, .) on a permutation of the same input, which determines the value up to order-equivalence (and exactly for total orders that coincide with equality), for every request list and pivot sequence. quantile_axis_mut is literally quantiles_axis_mut with one q followed by index_axis_move; the bulk/single agreement of the quantile API and of the per-axis weighted sums/means is enumerated on the real crate",
+        "level_text": "bulk selection equals single selection: Verus proves that every entry of get_many_from_sorted_mut and the result of get_from_sorted_mut satisfy the same specification selected_at(array, i, .) on a permutation of the same input, which determines the value up to order-equivalence (and exactly for total orders that coincide with equality), for every request list and pivot sequence - this last step is itself proved: lemma_order_statistic_unique (two arrangements of one multiset, both partitioned around position i, hold equivalent elements there; counting argument in shim/orderstat.rs) and lemma_quantile_determined (two arrangements satisfying lane_entry give the same quantile), so a bulk call and a single call cannot disagree. quantile_axis_mut is literally quantiles_axis_mut with one q followed by index_axis_move; the bulk/single agreement of the quantile API and of the per-axis weighted sums/means is enumerated on the real crate",
         "level_note": "ALSO PROVED (unit qglue): in quantiles_axis_mut every entry of the bulk result is specified per (lane, q) independently of the other requested quantiles - the same specification the single-q call (a one-element list) gets. counted as proof: sort unit. bounded: enum:quantiles (bulk slice j vs single call, request lists with repeats/empty), enum:select_many, enum:means (per-axis forms vs per-lane whole-array routine). Not decided: central_moments(p)[k] vs central_moment(k) bit for bit and the float per-axis variance (float closure chains, powi)",
         "technique": "Verus contracts shared by the bulk and single selection routines; bounded enumeration for the quantile / per-axis glue",
         "design_ref": "DESIGN.md 4 (C18)",
@@ -302,14 +302,14 @@ PROPS.update({
     },
     "C20": {
         "level": "exploration",
-        "level_text": "two parts. (1) The property itself as lemmas over the verified contracts: for 34 routines a Verus lemma takes the postcondition the routine was verified against (call_ensures of the routine) for two logically equal arrays - same shape, same elements in logical order, same index patterns; strides, memory order, offset and ownership are whatever the uninterpreted layout-revealing functions of the shim say, independently for the two - and derives that the answers agree: identical results and identical errors (both shapes in the payload) for count_eq, count_neq, weighted_sum; identical whenever the order of summation is immaterial for the element type (integers) for sq_l2_dist, l1_dist, linf_dist, l2_dist, mean_abs_err, mean_sq_err, root_mean_sq_err, mean, weighted_mean; the same real value under A-REAL (on the machine: up to summation roundoff, as the property asks) for weighted_var, weighted_std, central_moment, kurtosis, skewness, harmonic_mean, geometric_mean, entropy, kl_divergence, cross_entropy; the same real value per lane for weighted_sum_axis, weighted_mean_axis, weighted_var_axis (equal lanes along the axis); extremal elements of the same logical array, equivalent under the element order, for argmin, argmax, min, max, min_skipnan, max_skipnan, argmin_skipnan, argmax_skipnan (which of several equivalent extremal elements is returned is not determined by the contract, nor by the code: known finding D11); equal counts in every cell for histogram(). For the quantile family the relational fact is proved over the vocabulary of the contracts instead of call_ensures (the entry points take &mut self): two arrangements of the same lane that both satisfy lane_entry - the postcondition every quantile entry point establishes per lane - give the same value when equivalent elements are identical (lemma_quantile_determined, from a proved counting argument that order statistics are determined by the multiset, shim/orderstat.rs), so neither the pivots nor the layout can influence a quantile. A contract that stops determining the answer, or a body that starts to depend on layout (as_slice_memory_order and is_standard_layout have deliberately weak contracts), fails its lemma or its postcondition. (2) For every function under a Verus contract the shim exposes only ndarray's logical interface, so the proofs hold for every layout/ownership for which ndarray honours that interface (assumption A-ND). The stride-aware unsafe code is enumerated at the memory level (enum:nanview). Every other public routine is run on pairs (canonical array, logically equal re-layout) and must return bit-identical results for order-based and integer statistics and exact results for float sums of small integers",
+        "level_text": "two parts. (1) The property itself as lemmas over the verified contracts: for 38 routines a Verus lemma takes the postcondition the routine was verified against (call_ensures of the routine) for two logically equal arrays - same shape, same elements in logical order, same index patterns; strides, memory order, offset and ownership are whatever the uninterpreted layout-revealing functions of the shim say, independently for the two - and derives that the answers agree: identical results and identical errors (both shapes in the payload) for count_eq, count_neq, weighted_sum; identical whenever the order of summation is immaterial for the element type (integers) for sq_l2_dist, l1_dist, linf_dist, l2_dist, mean_abs_err, mean_sq_err, root_mean_sq_err, mean, weighted_mean; the same real value under A-REAL (on the machine: up to summation roundoff, as the property asks) for weighted_var, weighted_std, central_moment, kurtosis, skewness, harmonic_mean, geometric_mean, entropy, kl_divergence, cross_entropy; the same real value per lane for weighted_sum_axis, weighted_mean_axis, weighted_var_axis, weighted_std_axis (equal lanes along the axis), per order for central_moments, per entry for cov and pearson_correlation (equal entries of the observation matrix); extremal elements of the same logical array, equivalent under the element order, for argmin, argmax, min, max, min_skipnan, max_skipnan, argmin_skipnan, argmax_skipnan (which of several equivalent extremal elements is returned is not determined by the contract, nor by the code: known finding D11); equal counts in every cell for histogram(). For the quantile family the relational fact is proved over the vocabulary of the contracts instead of call_ensures (the entry points take &mut self): two arrangements of the same lane that both satisfy lane_entry - the postcondition every quantile entry point establishes per lane - give the same value when equivalent elements are identical (lemma_quantile_determined, from a proved counting argument that order statistics are determined by the multiset, shim/orderstat.rs), so neither the pivots nor the layout can influence a quantile. A contract that stops determining the answer, or a body that starts to depend on layout (as_slice_memory_order and is_standard_layout have deliberately weak contracts), fails its lemma or its postcondition. (2) For every function under a Verus contract the shim exposes only ndarray's logical interface, so the proofs hold for every layout/ownership for which ndarray honours that interface (assumption A-ND). The stride-aware unsafe code is enumerated at the memory level (enum:nanview). Every other public routine is run on pairs (canonical array, logically equal re-layout) and must return bit-identical results for order-based and integer statistics and exact results for float sums of small integers",
         "level_note": "bounded: enum:layouts - random integer-valued data, shapes 1-D..4-D (<= 16 elements), F-order / stepped-in-parent / reversed axes / embedded at an offset, owned/view/shared/copy-on-write, static vs dynamic dimension; enum:nanview. Float sums under different summation orders: only exactly-representable data",
-        "technique": "relational (2-safety) lemmas over the verified contracts of 34 routines + the quantile determinism lemma (call_ensures of the routine on two logically equal arrays) + logical-interface shim for every function under contract + bounded re-layout enumeration on the real crate (incl. the stride-aware unsafe code at the memory level)",
+        "technique": "relational (2-safety) lemmas over the verified contracts of 38 routines + the quantile determinism lemma (call_ensures of the routine on two logically equal arrays) + logical-interface shim for every function under contract + bounded re-layout enumeration on the real crate (incl. the stride-aware unsafe code at the memory level)",
         "design_ref": "DESIGN.md 4 (C20)",
-        "verus": [("nan", "N"), ("minmax", "N"), ("bins", "N"), ("deviation", "N"), ("means", "N"), ("entropy", "N"), ("moments", "N"), ("hist", "N"), ("qglue", "N"), ("skipnan", "N")],
+        "verus": [("nan", "N"), ("minmax", "N"), ("bins", "N"), ("deviation", "N"), ("means", "N"), ("entropy", "N"), ("moments", "N"), ("hist", "N"), ("qglue", "N"), ("skipnan", "N"), ("cov", "N")],
         "enum": [{"name": "layouts"}, {"name": "nanview", "abort_props": ["C04"]}, {"name": "moments"}, {"name": "entropy"}, {"name": "cov"}],
         "assumptions": [A_ND, A_VERUS, A_EXTRACT, A_ENUM, BOUNDED_NOTE],
-        "not_decided": ["floating-point sums whose value depends on summation order (roundoff bound)", "no relational lemma for: the skip-NaN folds / visit / per-lane map (they take the caller's closure), weighted_std_axis, central_moments, cov / pearson_correlation, Bins / strategies, remove_nan_mut: their contracts speak about the logical view only, and the re-layout enumeration covers them (bounded)"],
+        "not_decided": ["floating-point sums whose value depends on summation order (roundoff bound)", "no relational lemma for: the skip-NaN folds / visit / per-lane map (they take the caller's closure), Bins / strategies, remove_nan_mut: their contracts speak about the logical view only, and the re-layout enumeration covers them (bounded)"],
         "rule": "one case per (shape, data, layout) pair against the canonical C-order array; non-trivial = a non-canonical layout with at least 2 elements",
     },
 })
